@@ -273,9 +273,13 @@ Definition icmp_frame (o : ip_opts) (typ code : Z) (payload : option (list Z)) (
 
 (* ------------------------------------------------------------------ the ARP filler (arp.go SerializeTo, no FixLengths) *)
 
+(* SourceProtAddress: r.SrcIP as it is (any length), or r.SrcIP.To4() *)
+Definition arp_spa (q : request) : list Z :=
+  if fc_arp_spa_to4 then match to4 (q_src_ip q) with Some a => a | None => [] end else q_src_ip q.
+
 Definition arp_body (q : request) : list Z :=
   u16_bytes fc_arp_addr_type ++ u16_bytes fc_arp_protocol ++ [ fc_arp_hw_size; fc_arp_prot_size ] ++
-  u16_bytes fc_arp_operation ++ q_src_mac q ++ q_src_ip q ++ fc_arp_target_hw ++
+  u16_bytes fc_arp_operation ++ q_src_mac q ++ arp_spa q ++ fc_arp_target_hw ++
   match to4 (q_dst_ip q) with Some a => a | None => [] end.
 
 Definition arp_frame (q : request) : option (list Z) :=
